@@ -1,5 +1,6 @@
 import RbV.Gen.SrcKmpLps
 import RbV.Model.Kmp
+import RbV.Thm.GenSrcBasic
 /-!
 # The translated text of `kmp::lps` equals the mirror model `Kmp.lps`
 
@@ -141,5 +142,71 @@ theorem lps_eq_model (p : List Nat) (h64 : p.length < 2 ^ 64) : lps p = Res.ok (
       (by intro j hj; simp at hj; subst hj; simp) (by simp)
     simp only [List.length_singleton, List.cons_append, List.nil_append] at hqf
     simp [lps, Kmp.lps, List.replicate_succ, hqf]
+
+/-! ### `KMP::delta` -/
+
+/-- the translated `while q == self.m || (self.pattern[q] != a && q > 0)` loop is the model's `fallback` with `withM` -/
+theorem delta_while_eq (p tab : List Nat) (a : Nat) (hp : 0 < p.length) (hlen : tab.length = p.length)
+    (hb : Bounded tab) :
+    ∀ fuel q, q < fuel → q ≤ p.length →
+      delta_while1 p.length p a tab fuel q = Res.ok (Kmp.fallback p tab a true fuel q)
+        ∧ Kmp.fallback p tab a true fuel q ≤ q ∧ Kmp.fallback p tab a true fuel q < p.length := by
+  intro fuel
+  induction fuel with
+  | zero => intro q h; omega
+  | succ fuel ih =>
+    intro q hf hq
+    by_cases hqm : q = p.length
+    · -- q = m: fall back unconditionally
+      subst hqm
+      have hq1 : p.length - 1 < tab.length := by omega
+      have e4 : Rs.sub p.length 1 = Res.ok (p.length - 1) := Rs.sub_ok (by omega)
+      have e5 : Rs.idx tab (p.length - 1) = Res.ok (tab.getD (p.length - 1) 0) :=
+        GenSrc.idx_getD tab (p.length - 1) 0 hq1
+      have hle := hb (p.length - 1) hq1
+      obtain ⟨ih1, ih2, ih3⟩ := ih (tab.getD (p.length - 1) 0) (by omega) (by omega)
+      simp only [List.getD_eq_getElem?_getD] at ih1 ih2 ih3 hle e5
+      rw [delta_while1, Kmp.fallback]
+      simp [e4, e5]
+      exact ⟨ih1, by omega, ih3⟩
+    · have hqlt : q < p.length := by omega
+      have e1 : Rs.idx p q = Res.ok p[q] := Rs.idx_ok hqlt
+      have e3 : p[q]? = some p[q] := List.getElem?_eq_getElem hqlt
+      by_cases hcond : p[q] ≠ a ∧ q > 0
+      · have hq1 : q - 1 < tab.length := by omega
+        have e4 : Rs.sub q 1 = Res.ok (q - 1) := Rs.sub_ok (by omega)
+        have e5 : Rs.idx tab (q - 1) = Res.ok (tab.getD (q - 1) 0) := GenSrc.idx_getD tab (q - 1) 0 hq1
+        have hle := hb (q - 1) hq1
+        obtain ⟨ih1, ih2, ih3⟩ := ih (tab.getD (q - 1) 0) (by omega) (by omega)
+        simp only [List.getD_eq_getElem?_getD] at ih1 ih2 ih3 hle e5
+        rw [delta_while1, Kmp.fallback]
+        simp [hqm, e1, e3, e4, e5, hcond.1, hcond.2]
+        exact ⟨ih1, by omega, ih3⟩
+      · rw [delta_while1, Kmp.fallback]
+        have hc' : (p[q] != a && decide (q > 0)) = false := by
+          by_cases h1 : p[q] = a
+          · simp [h1]
+          · have : ¬ q > 0 := fun h => hcond ⟨h1, h⟩
+            simp [this]
+        have hc'' : (decide (q > 0) && p[q] != a) = false := by rw [Bool.and_comm]; exact hc'
+        have hcond' : ¬ (¬ p[q] = a ∧ 0 < q) := hcond
+        have hcond'' : ¬ (0 < q ∧ ¬ p[q] = a) := fun h => hcond ⟨h.2, h.1⟩
+        simp [hqm, e1, e3, hc', hc'', hcond', hcond'', hqlt]
+
+/-- **`KMP::delta` as written in the source = the model's `delta`**, over the failure table computed by the model
+(equal to the one computed by the source, `lps_eq_model`), for every state `q ≤ m` and every symbol: no panic (the
+read `self.pattern[q]` at `q = m` is guarded by the `||`), the fuel `q + 1` suffices. -/
+theorem delta_eq_model (p : List Nat) (hp : 0 < p.length) (h64 : p.length < 2 ^ 64) (q a : Nat) (hq : q ≤ p.length) :
+    delta p.length (Kmp.lps p) p q a = Res.ok (Kmp.delta p (Kmp.lps p) q a) := by
+  obtain ⟨hspec, hlen⟩ := Kmp.lps_spec p hp
+  have hb : Bounded (Kmp.lps p) := fun j hj => by have := (hspec j hj).1; omega
+  obtain ⟨w1, _, w3⟩ := delta_while_eq p (Kmp.lps p) a hp hlen hb (q + 1) q (by omega) hq
+  generalize hq' : Kmp.fallback p (Kmp.lps p) a true (q + 1) q = q' at w1 w3
+  have e1 : Rs.idx p q' = Res.ok p[q'] := Rs.idx_ok w3
+  have e3 : p[q']? = some p[q'] := List.getElem?_eq_getElem w3
+  by_cases heq : p[q'] = a
+  · have e4 : Rs.add 64 q' 1 = Res.ok (q' + 1) := Rs.add_ok (by omega)
+    simp [delta, Kmp.delta, Kmp.advance, w1, hq', e1, e3, e4, heq]
+  · simp [delta, Kmp.delta, Kmp.advance, w1, hq', e1, e3, heq]
 
 end RbV.Thm.GenSrcKmpLps
